@@ -27,6 +27,8 @@ ASSUMPTIONS = [
     "granularity; start = first occupied slot, end = end of the last occupied slot",
     "windowed trees have no shared sub-expressions (a shared child of a LessThan that a pass prunes is satisfiable only with the pass)",
     "LessThan over two fixed-time leaves is independent of their satisfaction (as documented in Expression.cpp)",
+    "strategy variants (options of one Max with their own machine count and duration) are offered at distinct start slots: the model's variable names "
+    "carry task name and start slot only, so two options of one task at the same slot cannot be told apart when a solution is read back by name",
 ]
 
 
@@ -36,7 +38,7 @@ def prepare_parent():
 
 # ----------------------------------------------------------------------------- generator
 @st.composite
-def trees(draw, gran=1, passes=None, irregular=False, windowed=False, malleable=False):
+def trees(draw, gran=1, passes=None, irregular=False, windowed=False, malleable=False, strategies=False):
     n_parts = draw(st.integers(1, 3))
     partitions = [{"id": i + 1, "q": draw(st.integers(1, 3))} for i in range(n_parts)]
     now = draw(st.integers(0, 3))
@@ -78,7 +80,12 @@ def trees(draw, gran=1, passes=None, irregular=False, windowed=False, malleable=
             tasks.append(leaf)
             continue
         chooses = []
+        # several execution strategies of one task under one Max: each option has its own machine count and duration
+        # (the Python front-end builds exactly this for a task with more than one strategy)
+        variants = strategies and draw(st.integers(0, 2)) > 0
         for s_ in starts:
+            if variants:
+                machines, duration = draw(st.integers(1, 2)), draw(st.integers(1, 4))
             chooses.append(add({"kind": "CHOOSE", "name": f"t{t}", "parts": parts, "machines": machines, "start": s_, "duration": duration,
                                 "utility": utility if not draw(st.booleans()) else float(draw(st.integers(1, 3)))}))
             leaves += 1
@@ -549,6 +556,8 @@ CHECKS = [
     Check("irregular_trees", execute, strategy=lambda tier: trees(irregular=True), budget={"quick": 128, "thorough": 4000}),
     Check("passes_metamorphic", exec_passes, strategy=lambda tier: st.booleans().flatmap(lambda w: trees(passes=[], windowed=w)), budget={"quick": 128, "thorough": 4000}),
     Check("coarse_discretization", exec_coarse, strategy=lambda tier: st.sampled_from([2, 3]).flatmap(lambda g: trees(gran=g, passes=[])), budget={"quick": 128, "thorough": 4000}),
+    Check("strategy_trees", execute, strategy=lambda tier: st.booleans().flatmap(lambda irr: trees(strategies=True, irregular=irr)), budget={"quick": 256, "thorough": 8000}),
+    Check("passes_strategies", exec_passes, strategy=lambda tier: trees(passes=[], strategies=True), budget={"quick": 192, "thorough": 4000}),
     Check("windowed_trees", execute, strategy=lambda tier: trees(windowed=True), budget={"quick": 320, "thorough": 12000}),
     Check("malleable_trees", execute, strategy=lambda tier: trees(malleable=True, windowed=True), budget={"quick": 160, "thorough": 6000}),
 ]
